@@ -174,7 +174,7 @@ def run(ctx):
     if not ctx.replay:
         nops = optable_stream(ctx, h, m)
     compared, nprogs, dist = verify_stream(
-        ctx, h, m, "c29.verify", ctx.n(150, 6000), names=names, judge=judge_c29,
+        ctx, h, m, "c29.verify", ctx.n(80, 6000), names=names, judge=judge_c29,
         corpus=os.path.join(vlib.ROOT, "corpus", "C29.verify.txt"))
     ctx.streams["c29.verify"]["rule"] = (
         "corpus programs, then main.elk.test (imports std + every *.elk.test), standalone *.elk, wide-frame programs, then "
@@ -186,3 +186,8 @@ def run(ctx):
     ctx.extra["programs"] = compared
     ctx.extra["disagreements_checked"] = compared + nops
     ctx.extra["source_programs_compiled"] = nprogs
+
+
+def setup_gen():
+    """called by setup.sh: write coq/Gen/C29_Opcodes.v before the full make"""
+    regen_table(vlib.build_harness("c29"))
